@@ -418,10 +418,28 @@ def view_span(fn, local, depth=14):
     """(root, start): the storage a view local points into and the constant byte offset of the view's
     first byte inside it (None if the offset is not a constant).  Follows reborrows, casts, pure views,
     constant index ranges and split_at halves."""
+    return _view_walk(fn, local, depth)[:2]
+
+
+def view_extent(fn, local, depth=14):
+    """(root, start, end): like view_span, with the constant end offset of the view inside root (None = up to the
+    end of the enclosing view / root).  (root, None, None) if any narrowing on the way is not a constant range."""
+    root, start, rngs = _view_walk(fn, local, depth)
+    if start is None or rngs is None:
+        return root, None, None
+    s, e = 0, None
+    for lo, hi in reversed(rngs):          # from the root side towards the view
+        e = s + hi if hi is not None else e
+        s = s + lo
+    return root, s, e
+
+
+def _view_walk(fn, local, depth=14):
     from ..engines import RESLICE
     from ..expr import expr_of_operand, call_arg_exprs, evaluate
     cur = local
     start = 0
+    rngs = []
     for _ in range(depth):
         cur = strip_reborrow(fn, cur)[-1]
         d = def_sites(fn, cur)
@@ -441,8 +459,16 @@ def view_span(fn, local, depth=14):
                         start += lo
                     else:
                         start = None
+                    hi = {"RangeTo": vals[0] if vals else "?", "RangeToInclusive": (vals[0] + 1) if vals and isinstance(vals[0], int) else "?",
+                          "Range": vals[1] if len(vals) > 1 else "?", "RangeInclusive": (vals[1] + 1) if len(vals) > 1 and isinstance(vals[1], int) else "?",
+                          "RangeFull": None, "RangeFrom": None}.get(nm, "?")
+                    if rngs is not None and isinstance(lo, int) and not isinstance(lo, bool) and (hi is None or (isinstance(hi, int) and not isinstance(hi, bool))):
+                        rngs.append((lo, hi))
+                    else:
+                        rngs = None
                 else:
                     start = None
+                    rngs = None
                 cur = c.args[0]["l"]
                 continue
             local_view = fn.prog is not None and c.rkey in fn.prog.reslicers
@@ -451,6 +477,7 @@ def view_span(fn, local, depth=14):
                     break       # reached through a tuple field below
                 if (c.path in NARROWING and not full_range_index(c)) or (local_view and c.rkey in fn.prog.narrowing_reslicers):
                     start = None
+                    rngs = None
                 cur = c.args[0]["l"]
                 continue
             break
@@ -470,6 +497,7 @@ def view_span(fn, local, depth=14):
         narrowing = [pe for pe in src["p"] if isinstance(pe, dict) and ("sub_from" in pe or "idx" in pe or "cidx" in pe)]
         if narrowing:
             start = None
+            rngs = None
         if len(flds) == 1 and not narrowing:
             # half of a split_at result?
             base = strip_reborrow(fn, src["l"])[-1]
@@ -482,10 +510,14 @@ def view_span(fn, local, depth=14):
                         start += k
                     else:
                         start = None
+                if rngs is not None and isinstance(k, int) and not isinstance(k, bool):
+                    rngs.append((k, None) if flds[0]["f"] == 1 else (0, k))
+                else:
+                    rngs = None
                 cur = sc.args[0]["l"]
                 continue
         cur = src["l"]
-    return cur, start
+    return cur, start, rngs
 
 
 def cut_points(prog, f):
@@ -696,7 +728,7 @@ def conv_component(prog, e):
     return roles.get(str(x.b).split(".")[-1]), x.a.a
 
 
-def accepts_min_len(rep, prog, f0, param, minimum, rule, inst):
+def accepts_min_len(rep, prog, f0, param, minimum, rule, inst, cap=None, exact=True):
     """every Ok-capable exit of f0 (private helpers folded in) is dominated by edges that bound the
     length of byte parameter `param` from below by exactly `minimum` and not from above: the parser
     accepts every encoding the writer can produce, including the one of the empty payload"""
@@ -711,7 +743,8 @@ def accepts_min_len(rep, prog, f0, param, minimum, rule, inst):
             continue
         n += 1
         lo, hi = bounds(("len", param), facts_at(f, b, ef))
-        rep.ob(rule, "%s|accepts len >= %d" % (inst, minimum), lo == minimum and hi is None,
+        # cap: an upper limit at or above `cap` (a MESSAGEBYTES_MAX style limit) is not a narrowing
+        rep.ob(rule, "%s|accepts len >= %d" % (inst, minimum), (lo == minimum or (not exact and (lo is None or lo <= minimum))) and (hi is None or (cap is not None and hi >= cap)),
                "Ok-capable exit at %s requires %s <= len%s (the shortest valid encoding has %d bytes)" % (
                    f.loc(b), lo, "" if hi is None else " <= %s" % hi, minimum), loc=f.loc(b))
     return n
@@ -893,3 +926,105 @@ def blake2b_init_roles(prog, call):
         res = dict(out)
     memo[g.key] = res
     return res
+
+
+def accepted_intervals(f, term, starts=(0,), ef=None):
+    """{(lo, hi)}: the constraints on integer `term` (e.g. ("len", p)) under which an Ok-capable exit of the
+    (inlined) Result-returning view `f` is reachable from one of the blocks `starts`, following every path and
+    refining the interval at each edge whose facts compare `term` with a constant.  An empty interval prunes
+    the path.  Unlike `facts_at` (edges dominating the exit) this is per path, so a guard that only some
+    paths pass (the `Some` arm of an optional key) is attributed to those paths only."""
+    from ..expr import result_kind_of_ret
+    from ..guards import edge_facts, bounds
+    if ef is None:
+        ef = edge_facts(f, view_info)
+    oks = {b for b, kind, e in result_kind_of_ret(f) if kind != "err"}
+    out = set()
+    seen = set()
+    st0 = (None,) * len(f.merges[0])
+    work = [(s, None, None, st0) for s in starts]
+    while work:
+        b, lo, hi, st = work.pop()
+        if (b, lo, hi, st) in seen or len(seen) > 50000:
+            continue
+        seen.add((b, lo, hi, st))
+        if b in oks:
+            out.add((lo, hi))
+        st2, succ = f._step(b, st)          # feasible successors only (see Fn.merges)
+        for s in succ:
+            if f.blocks[s]["cleanup"]:
+                continue
+            l2, h2 = lo, hi
+            fs = ef.get((b, s), [])
+            if fs:
+                bl, bh = bounds(term, fs)
+                if bl is not None:
+                    l2 = bl if l2 is None else max(l2, bl)
+                if bh is not None:
+                    h2 = bh if h2 is None else min(h2, bh)
+                ne = [r for op, l, r in fs if op == "Ne" and l == term and isinstance(r, int)]
+                if l2 is not None and l2 in ne:
+                    l2 += 1
+                if l2 is not None and h2 is not None and l2 > h2:
+                    continue
+            work.append((s, l2, h2, st2))
+    return out
+
+
+def some_arm_blocks(f, param):
+    """targets of the `Some` edge of every switch on the discriminant of Option parameter `param` (through copies)"""
+    out = []
+    for b in range(f.n):
+        t = f.blocks[b]["t"]
+        if t["k"] != "switch":
+            continue
+        ls = list(operand_locals(t["x"]))
+        if not ls:
+            continue
+        ds = def_sites(f, ls[0])
+        if len(ds) != 1 or ds[0][1] != "assign" or ds[0][2]["rv"]["k"] != "discr":
+            continue
+        pl = ds[0][2]["rv"]["place"]
+        if pl["p"]:
+            continue
+        root = strip_reborrow(f, pl["l"])[-1]
+        if root != param:
+            root = view_info(f, pl["l"])[0]      # through closure captures / record fields
+        if root != param:
+            continue
+        for v, tb in t["arms"]:
+            if v == 1:
+                out.append(tb)
+        if not any(v == 1 for v, tb in t["arms"]) and t.get("otherwise") is not None:
+            out.append(t["otherwise"])
+    return out
+
+
+LENGTH_ONLY = ("len", "is_empty", "capacity")
+
+
+def content_slice(f, targets):
+    """Backward dependency slice of `targets` that is not continued through values which only carry the *length*
+    of something (results of len / is_empty / capacity calls, slice metadata reads): what remains are the
+    locals whose contents can reach the targets."""
+    from collections import deque
+    g = f._alias_closed_deriv()
+    stop = set()
+    for c in f.calls():
+        if c.name in LENGTH_ONLY and len(c.args) == 1 and not c.dest["p"]:
+            stop.add(c.dest["l"])
+    for b, i, s in f.assigns():
+        rv = s["rv"]
+        if not s["place"]["p"] and (rv["k"] == "len" or rv["k"] == "unop" and rv.get("op") == "PtrMetadata"):
+            stop.add(s["place"]["l"])
+    seen = set(targets)
+    q = deque(targets)
+    while q:
+        x = q.popleft()
+        if x in stop:
+            continue
+        for y in g.get(x, ()):
+            if y not in seen:
+                seen.add(y)
+                q.append(y)
+    return seen
